@@ -182,7 +182,8 @@ def _subclass_fault(item):
     from hdl21.elab import Elaborator
     from ..build import build
 
-    dname, top, pos, victim = item
+    dname, top, pos, victim = item[:4]
+    mode = item[4] if len(item) > 4 else "after"
     design = dags.ALL[dname]()
     built = build(design)
     vmod = built.modules[victim]
@@ -191,6 +192,16 @@ def _subclass_fault(item):
 
     class Faulty(Base):
         def elaborate_module(self, module):
+            if module is vmod and mode == "midway":
+                # the pass dies half-way through its rewriting: one attribute (an array, else an instance bundle, a bundle
+                # instance, an instance) has been taken out of the module and nothing put in its place yet
+                for view in (module.instarrays, module.instbundles, module.bundles, module.instances):
+                    if view:
+                        name = next(iter(view))
+                        view.pop(name)
+                        module.namespace.pop(name, None)
+                        break
+                raise RuntimeError(f"injected fault in {Base.__name__} on {module.name}")
             rv = super().elaborate_module(module)
             if module is vmod:
                 raise RuntimeError(f"injected fault in {Base.__name__} on {module.name}")
@@ -418,6 +429,49 @@ def _gen_special(kind):
         except Exception as e:
             return ("bad", "after a handled inner failure, later calls fail: " + short_exc(e))
         return ("ok", "handled")
+    if kind in ("circular_repaired", "circular_repaired_twice", "circular_then_others"):
+        # a generator that builds "whatever the registry names": while the registry points back at the call itself the call
+        # fails (circular dependency); once the registry is repaired the same call runs and gives what a fresh process gives
+        registry = {}
+
+        @h.generator
+        def Leaf(p: PA) -> h.Module:
+            m = h.Module()
+            m.x = h.Port()
+            m.r = h.R(r=p.k)(p=m.x, n=m.x)
+            return m
+
+        @h.generator
+        def ByRegistry(p: PA) -> h.Module:
+            runs["n"] += 1
+            m = h.Module()
+            m.s = h.Signal()
+            m.i = registry["impl"](p)(x=m.s)
+            return m
+
+        registry["impl"] = ByRegistry
+        errs = []
+        for attempt in range(2 if kind != "circular_repaired" else 1):
+            try:
+                ByRegistry(PA(k=4))
+                return ("bad", "a call that depends on itself returned")
+            except Exception as e:
+                errs.append(short_exc(e)[:60])
+        if len(set(errs)) != 1:
+            return ("bad", f"the repeated circular call reports {errs}")
+        registry["impl"] = Leaf
+        try:
+            if kind == "circular_then_others":
+                other = ByRegistry(PA(k=5))
+                if [x.name for x in h.to_proto(other).modules][-1] != "hv.checks.c08.ByRegistry(v=None k=5)" and "ByRegistry" not in h.to_proto(other).modules[-1].name:
+                    return ("bad", "another call after the circular one is exported oddly")
+            m = ByRegistry(PA(k=4))
+            pk = h.to_proto(m)
+        except Exception as e:
+            return ("bad", "after the circular dependency was repaired, the same call still fails: " + short_exc(e))
+        if len(pk.modules) != 2 or m is not ByRegistry(PA(k=4)):
+            return ("bad", "the repaired call is not built / memoised as in a fresh process")
+        return ("ok", "circular")
     raise ValueError(kind)
 
 
@@ -537,6 +591,7 @@ def run(ctx):
             for pos in range(10):
                 for v in [m for m in design["modules"] if contains(design, top, m)]:
                     sitems.append((dname, top, pos, v))
+                    sitems.append((dname, top, pos, v, "midway"))
     res = ctx.pmap(_subclass_fault, sitems, chunk=10)
     for it, (status, detail) in zip(sitems, res):
         ctx.count(states=1, transitions=3, traces_validated_against_impl=1)
@@ -582,7 +637,7 @@ def run(ctx):
             ctx.outcome("gen:" + status)
             if status == "bad":
                 ctx.violation(dict(fault="generator_body", continuation=cont, what=("spurious circular dependency" if "ircular" in detail else detail[:50])), dict(kind="gen", item=[shape, cont, exc]), detail)
-    for kind in ("unnameable_fresh", "unnameable_handed", "fallback"):
+    for kind in ("unnameable_fresh", "unnameable_handed", "fallback", "circular_repaired", "circular_repaired_twice", "circular_then_others"):
         status, detail = _gen_special(kind)
         ctx.count(states=1, transitions=4, traces_validated_against_impl=1)
         ctx.fam("generators_special", **{status: 1})
